@@ -1,9 +1,10 @@
+\* thorough tier: source 4 (+1), all shapes x 1 fault
 CONSTANTS
-  MaxIdx = 6
+  MaxIdx = 5
   FaultKinds = {"short", "fetchErr", "quota", "fatal", "rootErr", "sthErr", "consErr", "cancel", "revoke"}
   KeepHist = FALSE
   SrcSizes = {4}
-  Growths = {0, 2}
+  Growths = {0, 1}
   Batches = {1, 2}
   FetcherCounts = {1, 2}
   SubmitterCounts = {1, 2}
